@@ -40,7 +40,7 @@ CHECKS = [
     {'id': 'C02',
      'technique': 'Hypothesis-generated operation sequences with an independent well-formedness validator and charge model after every step',
      'text': 'Programs of 3-12 public operations incl. factorisations, block, constructors, masks and swap gates; every returned tensor '
-             'is validated with is_consistent() and an independent re-derivation of the selection rule, block order, shapes, sizes, '
+             '(and its to_nonsymmetric() image) is validated with is_consistent() and an independent re-derivation of the selection rule, block order, shapes, sizes, '
              'fusion histories and forbidden-sector zeros; the charge of each result is compared with the group-law prediction.',
      'note': 'trusted: the independent group law (table of moduli), public accessors; results of factorisations/block are re-based '
              'before later steps'},
@@ -91,7 +91,7 @@ CHECKS = [
              'reverse_sites, copies and observers over MPS, MPO and rank-deficient/degenerate direct sums: the dense state (incl. central '
              'block and factor) is unchanged (same direction, no phase freedom, unit norm after normalising sweeps), sweeps leave isometries, '
              'norm/Schmidt values/entropies equal numpy svd. Binding truncate_ on states in the opposite canonical form: returned weight equals '
-             'the true relative error, factor equals kept norm, state equals a sequential largest-weight dense truncation (no-tie cases).',
+             'the true relative error (squares to 1e-9, and directly to 1e-10 incl. states with a tail of relative weight 1e-5..3e-9), factor equals kept norm, state equals a sequential largest-weight dense truncation (no-tie cases).',
      'note': 'trusted: NumPy contraction of site tensors; the C13 reference selection for the dense truncation; scalar limits only in the truncation part'},
     {'id': 'C09',
      'technique': 'Hypothesis-generated Hamiltonians, initial states and sweep schedules; DMRG output compared after every sweep with a dense Jordan-Wigner Hamiltonian and its sector spectrum',
